@@ -38,3 +38,45 @@ Example C13_nonvacuous :
   /\ map (fun he => ex_hash (eK he.2)) (map_to_list src) = (map_to_list src).*1
   /\ NoDup (map hash_t (keys_of src)).
 Proof. vm_compute. repeat split; try reflexivity. repeat constructor; set_solver. Qed.
+
+(* ---- tie to the source: the function bodies below are re-translated from /repo on every run
+   (harness/cmd/gofunc -> theories/Generated/Funcs.v, interpreted by theories/GoIR.v) ---- *)
+From Coq Require Import String.
+From Cache Require Import GoIR.
+From Cache.Generated Require Import Funcs.
+Open Scope string_scope.
+Open Scope Z_scope.
+From Coq Require Import String.
+From Cache Require Import GoIR TieTransfer TieWalk.
+From Cache.Generated Require Import Funcs.
+Open Scope string_scope.
+Open Scope Z_scope.
+
+(* every record is decoded into a variable declared inside the loop (a fresh target per record), the stored pointer is
+   the address of that variable, the count grows by one per stored record; io.EOF ends the loop, any other decoding
+   error is returned with the count so far — in all three Restore functions *)
+Theorem C13_source_restore_iteration : forall d n,
+  run_restore_iter fn_ShardedMap_Restore d n = Some (restore_spec true "TraitEntry" d n) /\
+  run_restore_iter fn_ShardedMapOf_Restore d n = Some (restore_spec true "TraitEntryOf[V]" d n) /\
+  run_restore_iter fn_SyncMap_Restore d n = Some (restore_spec false "TraitEntry" d n).
+Proof. exact tie_restore_iteration. Qed.
+Print Assumptions C13_source_restore_iteration.
+
+(* Dump is Walk with gob's Encode as the callback; a visit hands the callback a copy of the entry (K, V, and E, C
+   loaded atomically) outside the shard lock and counts it once *)
+Theorem C13_source_dump_is_walk_encode :
+  is_dump fn_ShardedMap_Dump = true /\ is_dump fn_ShardedMapOf_Dump = true /\ is_dump fn_SyncMap_Dump = true.
+Proof. exact tie_dump. Qed.
+Print Assumptions C13_source_dump_is_walk_encode.
+
+Theorem C13_source_walk_visit : forall cb_ok e c n,
+  (run_visit fn_shardedMap_Walk cb_ok e c n =
+     Some (if cb_ok then ([("RUnlock", []); ("callback", [copy_of "TraitEntry" e c]); ("RLock", [])], n + 1, VisitNext)
+           else ([("RUnlock", []); ("callback", [copy_of "TraitEntry" e c])], n, VisitStop n)) /\
+   run_visit fn_shardedMapOf_Walk cb_ok e c n =
+     Some (if cb_ok then ([("RUnlock", []); ("callback", [copy_of "TraitEntryOf[V]" e c]); ("RLock", [])], n + 1, VisitNext)
+           else ([("RUnlock", []); ("callback", [copy_of "TraitEntryOf[V]" e c])], n, VisitStop n))) /\
+  run_sync_visit cb_ok e c n =
+    Some ([("callback", [copy_of "TraitEntry" e c])], (if cb_ok then n + 1 else n), cb_ok, negb cb_ok).
+Proof. intros; split; [exact (tie_walk_visit_sharded _ _ _ _)|exact (tie_walk_visit_sync _ _ _ _)]. Qed.
+Print Assumptions C13_source_walk_visit.
